@@ -2,7 +2,7 @@
    T <t0_us> G <k> g1..gk ; op op ...   ->   one segment per op joined by " | " *)
 let base_us = BZ.mul (BZ.of_int (365 * 24 * 3600)) (BZ.of_int 1000000)
 
-let ev_code = function EvNone -> 0 | EvCompleted -> 1 | EvStarted -> 2 | EvStopped -> 3
+let ev_code = function EvNone -> 0 | EvCompleted -> 1 | EvStarted -> 2 | EvStopped -> 3 | EvScrape -> 4
 let b2i b = if b then 1 else 0
 
 let flags_int f =
@@ -10,25 +10,31 @@ let flags_int f =
   lor (b2i f.f_active lsl 4) lor (b2i f.f_requesting lsl 5) lor (b2i f.f_failure lsl 6) lor (b2i f.f_promisc lsl 7)
 
 let show_tracker t =
-  Printf.sprintf "%d.%d.%d.%d.%s.%s.%s.%s.%s.%s" (int_of_nat t.t_id) (b2i t.t_en) (b2i t.t_busy) (ev_code t.t_ev)
+  Printf.sprintf "%d.%d.%d.%d.%s.%s.%s.%s.%s.%s.%s" (int_of_nat t.t_id) (b2i t.t_en) (b2i t.t_busy) (ev_code t.t_ev)
     (string_of_z t.t_sc) (string_of_z t.t_fc) (string_of_z t.t_stl) (string_of_z t.t_ftl) (string_of_z t.t_ni) (string_of_z t.t_mi)
+    (string_of_z t.t_sct)
 
 let show_req r =
   Printf.sprintf "%d:%d:%s:%s:%s:%d" (int_of_nat r.r_id) (ev_code r.r_ev) (string_of_z r.r_up) (string_of_z r.r_comp) (string_of_z r.r_left) (b2i r.r_repl)
 
 let rec take n l = if n <= 0 then [] else match l with [] -> [] | x :: r -> x :: take (n - 1) r
 
-let show_state s nnew =
-  Printf.sprintf "%s %x %s %s R%s" (string_of_z s.now) (flags_int s.fl)
+let show_state s nnew nscr =
+  Printf.sprintf "%s %x %s %s P%s %s R%s S%s" (string_of_z s.now) (flags_int s.fl)
     (match s.tmo with None -> "-" | Some t -> string_of_z t)
+    (match s.tsc with None -> "-" | Some t -> string_of_z t)
+    (match s.pend with None -> "-" | Some (i, _) -> string_of_int (int_of_nat i))
     (String.concat ";" (List.map show_tracker s.trs))
     (String.concat "," (List.map show_req (List.rev (take nnew s.log))))
+    (String.concat "," (List.map (fun (_, i) -> string_of_int (int_of_nat i)) (List.rev (take nscr s.slog))))
 
 exception Badop
 
 let fig = Array.make 5 BZ.zero   (* up total, comp total, left, up baseline, comp baseline *)
 let fig_op () = OStats (z_of_zt (BZ.sub fig.(0) fig.(3)), z_of_zt (BZ.sub fig.(1) fig.(4)), z_of_zt fig.(2))
 
+(* a token expands to a list of model ops: replies and tracker enable/disable first run the main thread's
+   queued callback (ODrain), exactly as the harness does *)
 let parse_op k st tok =
   let a = String.split_on_char ':' tok in
   let z i = z_of_string (List.nth a i) in
@@ -37,26 +43,41 @@ let parse_op k st tok =
     | "b" -> (match List.filter (fun t -> t.t_busy) st.trs with t :: _ -> Some t.t_id | [] -> None)
     | "B" -> (match List.rev (List.filter (fun t -> t.t_busy) st.trs) with t :: _ -> Some t.t_id | [] -> None)
     | v -> let v = int_of_string v in if v < List.length st.trs then Some (nat_of_int v) else None in
+  let with_id i f = match id i with Some x -> f x | None -> [] in
+  let grp v = let n = String.length v in
+    if n > 0 && v.[n - 1] = 's' then (nat_of_int (int_of_string (String.sub v 0 (n - 1))), true) else (nat_of_int (int_of_string v), false) in
   match List.hd a with
-  | "en" -> Some (OEnable true) | "ek" -> Some (OEnable false) | "di" -> Some ODisable | "cl" -> Some OClose
-  | "ss" -> Some OSendStart | "sp" -> Some OSendStop | "sc" -> Some OSendCompleted | "su" -> Some OSendUpdate
-  | "mr" -> Some OManual | "rq" -> Some OStartRequesting | "sq" -> Some OStopRequesting
-  | "te" -> (match id 1 with Some i -> Some (OTrackerEnable i) | None -> None)
-  | "td" -> (match id 1 with Some i -> Some (OTrackerDisable i) | None -> None)
-  | "cy" -> Some (OCycle (nat_of_int (int_of_string (List.nth a 1))))
-  | "ok" -> (match id 1 with Some i -> Some (OSuccess (i, z 2, z 3)) | None -> None)
-  | "fl" -> (match id 1 with Some i -> Some (OFailure (i, None)) | None -> None)
-  | "fi" -> (match id 1 with Some i -> Some (OFailure (i, Some (z 2, z 3))) | None -> None)
-  | "ad" -> Some (OAdvance (z 1)) | "nx" -> Some ONext
-  | "st" -> fig.(0) <- BZ.of_string (List.nth a 1); fig.(1) <- BZ.of_string (List.nth a 2); fig.(2) <- BZ.of_string (List.nth a 3); Some (fig_op ())
-  | "bl" -> fig.(3) <- BZ.of_string (List.nth a 1); fig.(4) <- BZ.of_string (List.nth a 2); Some (fig_op ())
-  | "in" -> Some (OInsert (nat_of_int (int_of_string (List.nth a 1))))
-  | "ST" -> Some (OStart false) | "STK" -> Some (OStart true) | "SP" -> Some (OStop false) | "SPK" -> Some (OStop true)
+  | "en" -> [OEnable true] | "ek" -> [OEnable false] | "di" -> [ODisable] | "cl" -> [OClose]
+  | "ss" -> [OSendStart] | "sp" -> [OSendStop] | "sc" -> [OSendCompleted] | "su" -> [OSendUpdate]
+  | "mr" -> [OManual] | "rq" -> [OStartRequesting] | "sq" -> [OStopRequesting]
+  | "te" -> with_id 1 (fun i -> [OTrackerEnable i])
+  | "td" -> with_id 1 (fun i -> [OTrackerDisable i])
+  | "cy" -> [OCycle (nat_of_int (int_of_string (List.nth a 1)))]
+  | "ok" -> with_id 1 (fun i -> [OSuccess (i, z 2, z 3)])
+  | "fl" -> with_id 1 (fun i -> [OFailure (i, None)])
+  | "fi" -> with_id 1 (fun i -> [OFailure (i, Some (z 2, z 3))])
+  | "dok" -> with_id 1 (fun i -> [ODone (i, RSucc (z 2, z 3))])
+  | "dfl" -> with_id 1 (fun i -> [ODone (i, RFail None)])
+  | "dfi" -> with_id 1 (fun i -> [ODone (i, RFail (Some (z 2, z 3)))])
+  | "dr" -> [ODrain]
+  | "sr" -> [OScrapeRequest (z 1)]
+  | "nxs" -> [ONextScrape]
+  | "h" -> [OHint (List.map (fun v -> nat_of_int (int_of_string v)) (List.filter (fun v -> v <> "") (String.split_on_char ',' (List.nth a 1))))]
+  | "ad" -> [OAdvance (z 1)] | "nx" -> [ONext]
+  | "st" -> fig.(0) <- BZ.of_string (List.nth a 1); fig.(1) <- BZ.of_string (List.nth a 2); fig.(2) <- BZ.of_string (List.nth a 3); [fig_op ()]
+  | "bl" -> fig.(3) <- BZ.of_string (List.nth a 1); fig.(4) <- BZ.of_string (List.nth a 2); [fig_op ()]
+  | "in" -> let (g, sc) = grp (List.nth a 1) in [OInsert (g, sc)]
+  | "ST" -> fig.(3) <- fig.(0); fig.(4) <- fig.(1); [OStart false]
+  | "STK" -> fig.(3) <- fig.(0); fig.(4) <- fig.(1); [OStart true]
+  | "STB" -> [OStartK false] | "SP" -> [OStop false] | "SPK" -> [OStop true]
   | _ -> raise Badop
+
+let grp_of_string v = let n = String.length v in
+  if n > 0 && v.[n - 1] = 's' then (nat_of_int (int_of_string (String.sub v 0 (n - 1))), true) else (nat_of_int (int_of_string v), false)
 
 (* U <up> <comp> <left> ; evop ...  : one tracker, the announce as it must appear on a BEP-15 wire *)
 let run_udp up comp left evops =
-  let s = ref (init (z_of_zt base_us) [nat_of_int 0]) in
+  let s = ref (init (z_of_zt base_us) [(nat_of_int 0, false)]) in
   s := step !s (OStats (z_of_string up, z_of_string comp, z_of_string left));
   s := step !s (OEnable true);
   let outs = List.map (fun tok ->
@@ -87,12 +108,66 @@ let run_udp up comp left evops =
     end) evops in
   String.concat " | " outs
 
+(* D <completed> <left> ; ops : the real Download API (harness/c13d.cc). One tracker; the session harness runs
+   due timers after every call (OAdvance 0). Download::start/stop are no-ops when already active/inactive. *)
+let run_download comp left ops =
+  let s = ref (init (z_of_zt base_us) [(nat_of_int 0, false)]) in
+  Array.fill fig 0 5 BZ.zero;
+  fig.(1) <- BZ.of_string comp; fig.(2) <- BZ.of_string left;
+  s := step !s (fig_op ());
+  let active = ref false in
+  let outs = List.map (fun tok ->
+    let before = List.length !s.log in
+    let apply o = s := step !s o in
+    (match String.split_on_char ':' tok with
+     | ["start"] -> if not !active then begin active := true; fig.(3) <- fig.(0); fig.(4) <- fig.(1); apply (OStart false) end
+     | ["startk"] -> if not !active then begin active := true; apply (OStartK false) end
+     | ["starts"] -> if not !active then begin active := true; fig.(3) <- fig.(0); fig.(4) <- fig.(1); apply (OStart true) end
+     | ["stop"] -> if !active then begin active := false; apply (OStop false) end
+     | ["stops"] -> if !active then begin active := false; apply (OStop true) end
+     | ["up"; n] -> fig.(0) <- BZ.add fig.(0) (BZ.of_string n); apply (fig_op ())
+     | ["ok"] -> apply (OSuccess (nat_of_int 0, z_of_int 1800, z_of_int 600))
+     | ["fl"] -> apply (OFailure (nat_of_int 0, None))
+     | ["mr"] -> apply OManual
+     | ["cmp"] -> apply OSendCompleted
+     | _ -> raise Badop);
+    apply (OAdvance (z_of_int 0));
+    let nnew = List.length !s.log - before in
+    "R" ^ String.concat "," (List.map (fun r ->
+      Printf.sprintf "%d:%s:%s:%s" (ev_code r.r_ev) (string_of_z r.r_up) (string_of_z r.r_comp) (string_of_z r.r_left))
+      (List.rev (take nnew !s.log)))) ops in
+  String.concat " | " outs
+
+(* H <up> <comp> <left> ; ops : one real TrackerHttp against a scripted HTTP tracker; ok / fl = the worker part of the
+   reply only (ODone), dr = the main thread runs its queue (ODrain) *)
+let run_http up comp left ops =
+  let s = ref (init (z_of_zt base_us) [(nat_of_int 0, true)]) in
+  s := step !s (OStats (z_of_string up, z_of_string comp, z_of_string left));
+  let outs = List.map (fun tok ->
+    let before = List.length !s.log in
+    let os = match String.split_on_char ':' tok with
+      | ["en"] -> [OEnable true] | ["ss"] -> [OSendStart] | ["sc"] -> [OSendCompleted] | ["sp"] -> [OSendStop]
+      | ["mr"] -> [OManual] | ["nx"] -> [ONext] | ["ad"; n] -> [OAdvance (z_of_string n)]
+      | ["ok"] -> [ODone (nat_of_int 0, RSucc (z_of_int 1800, z_of_int 600))]
+      | ["fl"] -> [ODone (nat_of_int 0, RFail None)]
+      | ["dr"] -> [ODrain]
+      | _ -> raise Badop in
+    List.iter (fun o -> s := step !s o) os;
+    let nnew = List.length !s.log - before in
+    Printf.sprintf "%x %s R%s" (flags_int !s.fl) (match !s.tmo with None -> "-" | Some t -> string_of_z t)
+      (String.concat "," (List.map (fun r ->
+        Printf.sprintf "%d:%s:%s:%s" (ev_code r.r_ev) (string_of_z r.r_up) (string_of_z r.r_comp) (string_of_z r.r_left))
+        (List.rev (take nnew !s.log))))) ops in
+  String.concat " | " outs
+
 let () = each_line (fun line ->
   match split_ws line with
+  | "H" :: up :: comp :: left :: ";" :: ops -> (try run_http up comp left ops with Badop -> "BADOP")
+  | "D" :: comp :: left :: ";" :: ops -> (try run_download comp left ops with Badop -> "BADOP")
   | "U" :: up :: comp :: left :: ";" :: evops -> (try run_udp up comp left evops with Badop -> "BADOP")
   | "T" :: t0 :: "G" :: k :: rest ->
       let k = int_of_string k in
-      let groups = List.map (fun g -> nat_of_int (int_of_string g)) (take k rest) in
+      let groups = List.map grp_of_string (take k rest) in
       let rec drop n l = if n <= 0 then l else match l with [] -> [] | _ :: r -> drop (n - 1) r in
       (match drop k rest with
        | ";" :: ops ->
@@ -103,13 +178,21 @@ let () = each_line (fun line ->
            let s = ref s0 in
            (try
              List.iter (fun tok ->
-               let o = parse_op k !s tok in
-               let before = List.length !s.log in
-               (match o with Some o -> s := step !s o | None -> ());
-               let nnew = List.length !s.log - before in
-               if not !first then Buffer.add_string b " | ";
-               first := false;
-               Buffer.add_string b (show_state !s nnew)) ops
+               let before = List.length !s.log and sbefore = List.length !s.slog in
+               (* replies and tracker enable/disable queue main-thread callbacks themselves: what is queued runs first
+                  (and a target like "first busy tracker" is resolved after that) *)
+               (match String.split_on_char ':' tok with
+                | ("ok" | "fl" | "fi" | "te" | "td") :: _ -> s := step !s ODrain
+                | _ -> ());
+               let os = parse_op k !s tok in
+               List.iter (fun o -> s := step !s o) os;
+               (* a hint token only prepares the next op: it prints nothing *)
+               if String.length tok < 2 || String.sub tok 0 2 <> "h:" then begin
+                 s := step !s (OHint []);
+                 let nnew = List.length !s.log - before and nscr = List.length !s.slog - sbefore in
+                 if not !first then Buffer.add_string b " | ";
+                 first := false;
+                 Buffer.add_string b (show_state !s nnew nscr) end) ops
            with Badop -> Buffer.add_string b "BADOP");
            if Buffer.length b = 0 then "-" else Buffer.contents b
        | _ -> "BADCASE")
